@@ -25,6 +25,7 @@ TECHNIQUE = {
     "C10": "static analysis: interval normal forms of the wrapper guards vs the stated ranges, transitive write-set, loop/descent structure on the CFG",
     "C11": "static analysis: skip-taint region analysis (independence/monotonicity), CFG attribution bookkeeping of the shading loop, sibling AST normalisation",
     "C12": "static analysis: path enumeration with parameter specialisation (account-or-report), handler class/ordering discipline, order lattice of the item list, loop-body path classification",
+    "C13": "static analysis: def-use taint of candidate/container operands (direction of every containment test), quantifier structure on the CFG (for-all over the candidate's members, exists over the container's members), list-level loop-nest shape",
     "C15": "static analysis: loop-body linear-flow (each element placed exactly once), order lattice, sequence-first comparison structure, effect summaries of list operations and estimates",
     "C16": "static analysis: exporter/constructor key agreement, identity plumbing at re-initialisation sites, freshness/aliasing of exported values",
     "C17": "static analysis: hidden carried state (attributes surviving or wiped by re-initialisation), module-level mutable state, identity-keyed memo",
@@ -33,7 +34,6 @@ TECHNIQUE = {
 }
 
 NOT_APPLICABLE = {
-    "C13": "containment answers are computed by ipaddress.IPv4Network.subnet_of over value-level network lists; truth is bit algebra over 2^64 pairs, not code shape. The only structural parts (the ∀∃ loop nest and call direction) are already premises R03.6 of C03; repeating them here would label two loops a decision about set containment.",
     "C14": "collapse_ is a work-list algorithm whose result depends on the values popped and inserted; set preservation, minimality and termination order are properties of values. The wrappers' type guards are visible statically but claiming the property through them would be a proxy.",
     "C18": "exact cover, ports-per-line limits and the range/eq policy are arithmetic over the request string (chunk boundaries, for/else flush, vlist.to_multi); realistic faults (off-by-one chunk, dropped tail, inverted flag) leave the code shape intact, so no necessary structural clause exists.",
 }
